@@ -189,7 +189,7 @@ class LazyObj(dict):
         if p is not None:
             return True if p["bit"] is None else self._env.bit(p["bit"])
         x = self._d.get("extra")
-        if x is not None and isinstance(k, str) and not _is_symbolic(k) and not k.startswith(EXTRA_PREFIX):
+        if x is not None and EXTRA_PREFIX and isinstance(k, str) and not _is_symbolic(k) and not k.startswith(EXTRA_PREFIX):
             return False  # the lemma's precondition fixes the prefix of the undeclared name
         if x is not None and self._env.bit(x["bit"]):
             if _is_symbolic(k):
@@ -268,15 +268,24 @@ def _is_symbolic(x):
     return type(x).__module__.startswith("crosshair")
 
 
-EXTRA_PREFIX = "x-"
+EXTRA_PREFIX = ""  # "" = any name that no alternative at the position declares (precondition of the C15 lemmas)
 
 
 class Env:
     """binding of descriptor variables to lemma arguments"""
 
-    def __init__(self, bits=(), strs=(), ints=(), extra_name=None, extra_value=None):
+    def __init__(self, bits=(), strs=(), ints=(), extra_name=None, extra_value=None, extra_kind=None, payloads=None):
         self._bits, self._strs, self._ints = bits, strs, ints
-        self.extra_name, self.extra_value = extra_name, extra_value
+        self.extra_name, self._extra_value = extra_name, extra_value
+        self._extra_kind, self._payloads = extra_kind, payloads
+
+    @property
+    def extra_value(self):
+        """the undeclared property's payload; when its JSON kind is symbolic it is only resolved (forking over the
+        kinds) if the code under test actually reads the value"""
+        if self._extra_kind is not None:
+            return self._payloads[self._extra_kind]
+        return self._extra_value
 
     def bit(self, i):
         return self._bits[i]
